@@ -66,6 +66,7 @@ func multiPointCentroid(mp orb.MultiPoint) orb.Point {
 
 func multiLineStringCentroid(mls orb.MultiLineString) orb.Point {
 	point := orb.Point{}
+	plain := orb.Point{} // unweighted sum, used if no line has a length
 	dist := 0.0
 
 	if len(mls) == 0 {
@@ -82,12 +83,11 @@ func multiLineStringCentroid(mls orb.MultiLineString) orb.Point {
 		dist += d
 		validCount++
 
-		if d == 0 {
-			d = 1.0
-		}
-
 		point[0] += c[0] * d
 		point[1] += c[1] * d
+
+		plain[0] += c[0]
+		plain[1] += c[1]
 	}
 
 	if validCount == 0 {
@@ -95,9 +95,9 @@ func multiLineStringCentroid(mls orb.MultiLineString) orb.Point {
 	}
 
 	if dist == math.Inf(1) || dist == 0.0 {
-		point[0] /= float64(validCount)
-		point[1] /= float64(validCount)
-		return point
+		plain[0] /= float64(validCount)
+		plain[1] /= float64(validCount)
+		return plain
 	}
 
 	point[0] /= dist
